@@ -40,6 +40,10 @@ def run(rep, props, replay=None):
         X = fd.smooth_curves(rng, n, x, rough=(i % 2 == 0), offset=float(rng.choice([0.0, 5.0])),
                              scale=float(rng.choice([1.0, 10.0, 0.1]))) + 0.05 * rng.normal(size=(n, m))
         X = np.round(X * 1024) / 1024
+        if i % 5 == 3:
+            X = X * 1e-6                      # "any scale": curves in small units
+        elif i % 5 == 4:
+            X = X * 1e4
         d = fd.dense(x, X)
         w = _integration_weights(x, method="trapz")
         qx = C.qlist(x)
